@@ -151,7 +151,7 @@ def run(ctx):
             "the purge loop no longer deletes the attribute: %s" % dels)
     # attr_names is the key set of the token's attributes
     src = " ".join(norm(at.node).split())
-    r.check("R9.2", "attrs = %s['data'] attr_names = set(attrs.keys())" % p in src, "purge-domain", at.where,
+    r.idiom("R9.2", "attrs = %s['data'] attr_names = set(attrs.keys())" % p in src, "purge-domain", at.where,
             "the purge does not range over all attribute keys of the token")
     # first loop / first mutation of attrs; only guarded by `"data" in token`
     def only_data_guard(n, lab):
@@ -195,11 +195,24 @@ def uri_gate(ctx, at, cfg):
     # normalisation of the tested value
     norm_assign = [s for s in loop.body if isinstance(s, ast.Assign) and norm(s.targets[0]) == "val_unescaped"]
     ok_norm = False
+    norm_wrong = None
+    compiled = {}
+    for st in at.module.tree.body:
+        if isinstance(st, ast.Assign) and isinstance(st.value, ast.Call) and norm(st.value.func) == "re.compile" and st.value.args:
+            compiled[norm(st.targets[0])] = st.value.args[0]
     if norm_assign:
         v = norm_assign[0].value
-        if isinstance(v, ast.Call) and isinstance(v.func, ast.Attribute) and v.func.attr == "lower" and \
-                isinstance(v.func.value, ast.Call) and norm(v.func.value.func) == "re.sub":
-            sub = v.func.value
+        sub = None
+        if isinstance(v, ast.Call) and isinstance(v.func, ast.Attribute) and v.func.attr == "lower" and isinstance(v.func.value, ast.Call):
+            inner = v.func.value
+            if norm(inner.func) == "re.sub":
+                sub = inner
+            elif isinstance(inner.func, ast.Attribute) and inner.func.attr == "sub" and norm(inner.func.value) in compiled:
+                # precompiled pattern: <name>.sub(repl, string)
+                sub = ast.Call(func=inner.func, args=[compiled[norm(inner.func.value)]] + list(inner.args), keywords=[])
+        elif isinstance(v, ast.Call) and (norm(v.func) == "re.sub" or (isinstance(v.func, ast.Attribute) and v.func.attr == "sub")):
+            norm_wrong = "the value whose scheme is tested is no longer lower-cased: `JaVaScRiPt:` passes the allow-list test"
+        if sub is not None:
             pat = ce.try_eval(sub.args[0], at.module)
             import re._parser as sp
             if isinstance(pat, str):
@@ -213,8 +226,14 @@ def uri_gate(ctx, at, cfg):
                             chars |= set(range(arg[0], arg[1] + 1))
                 ok_norm = set(range(0, 0x21)) <= chars and norm(sub.args[1]) == "''" and \
                     norm(sub.args[2]) == "unescape(attrs[%s])" % attr
-    r.check("R9.3", ok_norm, "scheme-normalisation", "%s:%d" % (REL, loop.lineno),
-            "the value whose scheme is tested is no longer the unescaped, control/space-stripped, lower-cased attribute value")
+                if chars and not set(range(0, 0x21)) <= chars:
+                    norm_wrong = "control characters / white space %s are no longer stripped before the scheme is tested" % sorted(
+                        "U+%04X" % c for c in set(range(0, 0x21)) - chars)[:6]
+                elif norm(sub.args[2]) == "attrs[%s]" % attr:
+                    norm_wrong = "character references in the value are no longer decoded (unescape) before the scheme is tested"
+    r.idiom("R9.3", ok_norm, "scheme-normalisation", "%s:%d" % (REL, loop.lineno),
+            "the value whose scheme is tested is no longer the unescaped, control/space-stripped, lower-cased attribute value",
+            wrong=[(norm_wrong is not None, norm_wrong)])
     parse = [s for s in ast.walk(loop) if isinstance(s, ast.Assign) and norm(s.value) == "urlparse.urlparse(val_unescaped)"]
     r.check("R9.3", len(parse) == 1, "parses-normalised-value", "%s:%d" % (REL, loop.lineno), "the scheme is not parsed from the normalised value")
     tries = [s for s in loop.body if isinstance(s, ast.Try)]
@@ -339,14 +358,26 @@ def css(ctx):
                 brk = [s for s in loop.body if isinstance(s, ast.If) and any(isinstance(y, ast.Break) for y in s.body)]
                 ok = len(brk) == 1 and "keyword not in self.allowed_css_keywords" in norm(brk[0].test) and \
                     "prop.split('-')[0].lower() in ['background', 'border', 'margin', 'padding']" in " ".join(norm(f.node).split())
-        r.check("R9.5", ok, "css-append@%s" % norm(a.ast)[:40] + str(appends.index(a)), "%s:%d" % (REL, a.lineno),
-                "a CSS declaration is kept without a dominating allow-list test", detail={"dominated": ok})
+        # positively wrong: the append is reached on the false edges of *all* allow-list tests (an `else:` arm), or no
+        # allow-list test dominates any append at all
+        def unguarded(n, lab):
+            return False
+        in_else = False
+        for anc in ast.walk(f.node):
+            if isinstance(anc, ast.If) and anc.orelse and not (len(anc.orelse) == 1 and isinstance(anc.orelse[0], ast.If)) and \
+                    any(y is a.ast for s in anc.orelse for y in ast.walk(s)) and "allowed_svg_properties" in norm(anc.test):
+                in_else = True
+        r.idiom("R9.5", ok, "css-append@%s" % norm(a.ast)[:40] + str(appends.index(a)), "%s:%d" % (REL, a.lineno),
+                "a CSS declaration is kept without a dominating allow-list test", wrong=[(in_else, None)], detail={"dominated": ok})
     # url() stripper first
     first = [s for s in f.node.body if not (isinstance(s, ast.Expr) and isinstance(s.value, ast.Constant))][0]
     ok = isinstance(first, ast.Assign) and norm(first.targets[0]) == f.params()[1] and "url" in norm(first.value) and ".sub(' '," in norm(first.value)
-    r.check("R9.5", ok, "url-stripped-first", f.where, "the url() stripper is no longer the first step of sanitize_css")
+    mentions_url = any(isinstance(n, ast.Constant) and isinstance(n.value, str) and "url" in n.value for n in ast.walk(f.node)) or \
+        any(isinstance(n, ast.Name) and "url" in n.id.lower() for n in ast.walk(f.node))
+    r.idiom("R9.5", ok, "url-stripped-first", f.where, "the url() stripper is no longer the first step of sanitize_css",
+            wrong=[(not mentions_url, "sanitize_css no longer strips url(...) at all")])
     rets = [n for n in ast.walk(f.node) if isinstance(n, ast.Return)]
-    r.check("R9.5", all(norm(x.value) in ("''", "' '.join(clean)") for x in rets), "css-returns", f.where,
+    r.idiom("R9.5", all(norm(x.value) in ("''", "' '.join(clean)") for x in rets), "css-returns", f.where,
             "sanitize_css returns something other than '' or the kept declarations")
 
 
